@@ -387,7 +387,7 @@ class Prims(Stream):
 
     def gen(self, rng, tier):
         inv = self.inventory()
-        n = 1500 if tier == 'quick' else 30000
+        n = 1500 if tier == 'quick' else 20000
         out = []
         for _ in range(n):
             r = rng.random()
@@ -518,7 +518,7 @@ class LabelsStream(Stream):
         return kws
 
     def gen(self, rng, tier):
-        n = 1200 if tier == 'quick' else 24000
+        n = 1200 if tier == 'quick' else 16000
         out = []
         for _ in range(n):
             e = rng.choice(['ctor', 'ctor', 'update', 'from_json'])
@@ -739,7 +739,7 @@ class Misc(Stream):
             'lengths limit-1/limit/limit+1, Capacities with negative / non-int / None values; distinct by case')
 
     def gen(self, rng, tier):
-        n = 500 if tier == 'quick' else 8000
+        n = 500 if tier == 'quick' else 5000
         out = []
         for _ in range(n):
             k = rng.choice(['tags', 'tags_json', 'name', 'name', 'boot', 'jd_str', 'jd_obj', 'caps'])
@@ -1066,7 +1066,7 @@ class Topo(Stream):
         return t, {'NodeSliver': n, 'ComponentSliver': c, 'NetworkServiceSliver': s, 'InterfaceSliver': i}
 
     def gen(self, rng, tier):
-        n = 400 if tier == 'quick' else 6000
+        n = 400 if tier == 'quick' else 3000
         lab = LabelsStream()
         out = []
         for _ in range(n):
